@@ -144,7 +144,7 @@ const LONG_PREFIX: &str = "abcdefghijklmnopqrstuvwxyz0234567890abcdefghijklmnopq
 
 fn prefixes() -> Vec<&'static str> {
     // (a human-readable part may hold any printable ASCII character)
-    vec!["a", "juno", "juno1", "cosmwasm", "osmo1x", "my-chain", "x+y~_.", LONG_PREFIX]
+    vec!["a", "juno", "juno1", "cosmwasm", "osmo1x", "my-chain", "x+y~_.", "42-", LONG_PREFIX]
 }
 
 fn codecs() -> Vec<CodecCase> {
